@@ -4,6 +4,7 @@ import (
 	"go/ast"
 	"go/constant"
 	"go/types"
+	"regexp"
 	"strings"
 
 	"verifcheck/an"
@@ -708,4 +709,128 @@ func removeWithoutStepBack(body *ast.BlockStmt) []ast.Node {
 	}
 	ast.Inspect(body, visit)
 	return out
+}
+
+func init() {
+	old := All["C01"].Run
+	All["C01"].Run = func(c *an.Ctx) {
+		old(c)
+		c01everyLogFileRecorded(c)
+		c01roundRobinPartition(c)
+	}
+	All["C01"].Rules += " R14 R15"
+	addLevel("C01", "every log file the writer creates is appended to the list that Switch hands to the remover (a rolled-over file that is not listed survives the flush and is replayed over newer data); the writer picks the partition as sequence modulo partition count, the distribution the serial replay assumes.")
+}
+
+// c01everyLogFileRecorded — C01.R14.  After a flush the WAL files written since the last flush are
+// removed; they are the names LogWriter.Switch returns.  A file created by the writer (first
+// write, or roll-over at the size limit) that is not in that list survives the flush, and the
+// next restart replays its old records over newer data.
+func c01everyLogFileRecorded(c *an.Ctx) {
+	const E = "engine"
+	r := c.Rule("C01.R14", "K-ORDER(pairing)+K-PROVENANCE", E+":(*LogWriter).trySwitchFile records every file it creates in fileNames; Switch returns all of fileNames")
+	names := obj(r, E+":LogWriter.fileNames")
+	if names == nil {
+		return
+	}
+	if f := fn(r, E+":LogWriter.trySwitchFile"); f != nil {
+		open := f.Find(call(r, "lib/fileops:OpenFile"))
+		rec := f.Find(an.MStore("fileNames = append(fileNames, name)", names, func(g *an.Fn, e ast.Expr) bool {
+			ce, ok := ast.Unparen(e).(*ast.CallExpr)
+			if !ok || len(ce.Args) != 2 {
+				return false
+			}
+			id, ok := ce.Fun.(*ast.Ident)
+			return ok && id.Name == "append"
+		}))
+		if !r.Failed() {
+			if open.Len() == 0 || rec.Len() == 0 {
+				r.Fail(f.Name+": shape", c.P.Pos(f.Body.Pos()), "expected the creation of the log file (fileops.OpenFile) and the append of its name to fileNames (found %d / %d)", open.Len(), rec.Len())
+			} else {
+				f.FollowedByOnSuccess(r, open, rec, f.Find(an.ReturnsNilErr()), "file created ⇒ its name recorded before trySwitchFile reports success")
+				// the recorded name is the created name
+				for _, s := range rec.List {
+					as := s.Node.(*ast.AssignStmt)
+					ce := ast.Unparen(as.Rhs[0]).(*ast.CallExpr)
+					okName := false
+					for _, o := range open.List {
+						if oc, ok := o.Node.(*ast.CallExpr); ok && len(oc.Args) > 0 && f.Canon(oc.Args[0]) == f.Canon(ce.Args[1]) {
+							okName = true
+						}
+					}
+					if !okName {
+						r.Fail(f.Name+": recorded name", c.P.Pos(as.Pos()), "the name appended to fileNames (%s) is not the name of the file that was created", f.Canon(ce.Args[1]))
+					}
+				}
+			}
+		}
+	}
+	if f := fn(r, E+":LogWriter.Switch"); f != nil {
+		rets := f.Find(an.ReturnsNilErr())
+		r.AddSites(rets.Len())
+		for _, s := range rets.List {
+			rs := s.Node.(*ast.ReturnStmt)
+			if len(rs.Results) != 2 {
+				continue
+			}
+			cn := f.Canon(rs.Results[0])
+			whole := strings.Contains(cn, "recv.fileNames") && !strings.Contains(cn, "recv.fileNames[")
+			if id, ok := ast.Unparen(rs.Results[0]).(*ast.Ident); ok && !whole {
+				v := f.Info.Uses[id]
+				ast.Inspect(f.Body, func(m ast.Node) bool {
+					as, ok := m.(*ast.AssignStmt)
+					if !ok || len(as.Lhs) != 1 || len(as.Rhs) != 1 {
+						return true
+					}
+					lid, ok := as.Lhs[0].(*ast.Ident)
+					if !ok || (f.Info.Uses[lid] != v && f.Info.Defs[lid] != v) {
+						return true
+					}
+					if ce, ok := ast.Unparen(as.Rhs[0]).(*ast.CallExpr); ok && ce.Ellipsis != 0 && len(ce.Args) == 2 {
+						if fid, ok := ce.Fun.(*ast.Ident); ok && fid.Name == "append" && f.Canon(ce.Args[1]) == "recv.fileNames" {
+							whole = true
+						}
+					}
+					return true
+				})
+			}
+			if !whole {
+				r.Fail(f.Name+": returned list", c.P.Pos(rs.Pos()), "Switch returns %s, not (a copy of) the whole of fileNames: files missing from the list are never removed after the flush", cn)
+			}
+		}
+	}
+}
+
+// c01roundRobinPartition — C01.R15.  The serial replay takes one record from every partition per
+// round, in partition order; that reproduces the write order only if the writer put record k
+// into partition k mod n.
+func c01roundRobinPartition(c *an.Ctx) {
+	const E = "engine"
+	r := c.Rule("C01.R15", "K-CONTRACT(writer/reader)", E+":(*WAL).writeBinary — record k goes to partition k % partitionNum (what the round-robin replay assumes)")
+	f := fn(r, E+":WAL.writeBinary")
+	lw := obj(r, E+":WAL.logWriter")
+	if f == nil || lw == nil {
+		return
+	}
+	n := 0
+	ast.Inspect(f.Body, func(m ast.Node) bool {
+		ix, ok := m.(*ast.IndexExpr)
+		if !ok {
+			return true
+		}
+		sel, ok := ast.Unparen(ix.X).(*ast.SelectorExpr)
+		if !ok || f.Info.Uses[sel.Sel] != lw {
+			return true
+		}
+		n++
+		cn := f.Canon(ix.Index)
+		if !regexp.MustCompile(`^\(\(atomic\.AddUint64\(&recv\.writeReq,1\)-1\)%uint64\(recv\.partitionNum\)\)$`).MatchString(cn) {
+			r.Fail(f.Name+": partition index", c.P.Pos(ix.Pos()), "the record is written to partition %s; the replay order equals the write order only for (sequence-1) %% partitionNum", cn)
+		}
+		return true
+	})
+	r.AddSites(n)
+	if n == 0 {
+		r.Fail(f.Name+": no partition choice", c.P.Pos(f.Body.Pos()), "writeBinary no longer indexes the partition writers")
+	}
 }
